@@ -119,3 +119,10 @@ package absnfs
 //@ ensures [shape] len(result) == 4
 //@ ensures [absent-zero] sbe32(result, 0) != 0 ==> exists(a, lo(pm), hi(pm), absidx(pm.mappings, a).Port == sbe32(result, 0), absidx(pm.mappings, a))
 //@ ensures [registry-untouched] pmSame(pm)
+
+// rpcbind GETADDR: the registry is asked for the protocol the netid names (tcp, tcp6 -> TCP; else UDP)
+//@ func Portmapper.handleGetAddr
+//@ prop C27
+//@ partial
+//@ requires pm != nil && pmUnique(pm)
+//@ callassert Portmapper.GetPort : [netid-protocol] arg1 == prog && arg2 == vers && arg3 == ite(netid == "tcp" || netid == "tcp6", 6, 17)
